@@ -60,7 +60,7 @@ var hostilePlaces = []string{"Families", "families", "Places", "John Smith", "jo
 var hostileSourcePointers = []string{"S1", "../x", "a/b", "places", "families", "john-smith", "S 1", "s1", "sources", "..", "x.html", "S1#frag", "S?q=1", "%2e%2e", "a b", "a-b", "a_b", "a_20b", "S-1", "Zoë", "Zo_c3_ab", "Places", "individuals-s", "statistics", "surnames", "London", "london-england"}
 
 func genDoc(rt *rapid.T, hostile bool) *gen.GraphBP {
-	g := gen.Graph(gen.GraphOpts{MaxPeople: 5, MaxFamilies: 2, WildDates: true}).Draw(rt, "doc")
+	g := gen.Graph(gen.GraphOpts{MaxPeople: 5, MaxFamilies: 2, WildDates: true, Big: 50, BigLo: 25, BigHi: 70}).Draw(rt, "doc")
 	for i, p := range g.People {
 		// most people are dead so that every page group is populated in every mode; some are
 		// living for certain (born 2001, no death) so that the visibility matters
